@@ -6,6 +6,7 @@
 #include "rng.h"
 
 #include <errno.h>
+#include <execinfo.h>
 #include <fcntl.h>
 #include <stdarg.h>
 #include <stdlib.h>
@@ -36,6 +37,7 @@ int __real_open(const char *, int, ...);
 int __real_fstat(int, struct stat *);
 int __real_close(int);
 ssize_t __real_read(int, void *, size_t);
+ssize_t __real_write(int, const void *, size_t);
 FILE *__real_fopen(const char *, const char *);
 size_t __real_fwrite(const void *, size_t, size_t, FILE *);
 int __real_fclose(FILE *);
@@ -549,8 +551,11 @@ static void fatal_outside_op(int sig, uintptr_t addr) {
   char buf[128];
   int n = snprintf(buf, sizeof buf, "DIED harness signal=%d addr=%s\n", sig,
                    addr < 65536 ? "nullpage" : (addr_in_arena(addr) ? "arena" : "other"));
-  if (write(2, buf, n) < 0) {}
-  if (write(1, buf, n) < 0) {}
+  if (__real_write(2, buf, n) < 0) {}
+  if (__real_write(1, buf, n) < 0) {}
+  void *frames[32];
+  int nf = backtrace(frames, 32);
+  backtrace_symbols_fd(frames, nf, 2);
   _exit(3);
 }
 static void on_signal(int sig, siginfo_t *si, void *uc_) {
@@ -1005,7 +1010,6 @@ extern "C" int __wrap_open(const char *path, int flags, ...) {
 }
 // write(2) from real code: to a descriptor of the simulated file system (a tree that bypasses stdio),
 // or to the process's stdout/stderr
-extern "C" ssize_t __real_write(int, const void *, size_t);
 extern "C" ssize_t __wrap_write(int fd, const void *buf, size_t n) {
   if (!in_lib()) return __real_write(fd, buf, n);
   HarnessScope hs_;
